@@ -169,4 +169,531 @@ Proof.
     apply andb_true_iff in G as [_ G2]. destruct (staged (dy s c)) eqn:St;
       [exact (proj1 (finish_ok s c Shutdown I (alive_ctl _ G2) St))|exact (proj1 (fake_finish_ok s c Shutdown I St))].
 Qed.
+
+Lemma fake_fold_P : forall cs s,
+  Inv s -> pinv s -> (forall c, In c cs -> c < ncomp W) ->
+  pinv (fold_left (fun s x => if negb (staged (dy s x)) && negb (finish_called (dy s x))
+                              then fake_finish s x Shutdown else s) cs s).
+Proof.
+  induction cs as [|c cs IH]; intros s I P Hl; cbn [fold_left]; [exact P|].
+  assert (Hl' : forall x, In x cs -> x < ncomp W) by (intros x Hx; apply Hl; right; exact Hx).
+  destruct (negb (staged (dy s c)) && negb (finish_called (dy s c))) eqn:G; [|apply IH; [exact I|exact P|exact Hl']].
+  apply andb_true_iff in G as [G1 _]. apply negb_true_iff in G1.
+  destruct (fake_finish_ok s c Shutdown I G1) as [I' _]. apply IH; [exact I'| |exact Hl'].
+  apply fake_finish_P; [exact I|exact P|exact G1|]. apply Hl. left. reflexivity.
+Qed.
+
+Lemma in_nodes c : In c (nodes W) -> c < ncomp W.
+Proof. unfold nodes. intros H. apply in_seq in H. lia. Qed.
+
+Lemma in_stage_nodes c i : In c (stage_nodes W i) -> c < ncomp W.
+Proof. unfold stage_nodes. intros H. apply filter_In in H as [H _]. exact (in_nodes c H). Qed.
+
+Definition ready_in (ready : list nat) : Prop := forall c, In c ready -> c < ncomp W.
+
+Lemma visit_P s si ready c :
+  PassInv W s si ready -> pinv si -> ready_in ready -> c < ncomp W ->
+  pinv (fst (sched_visit W true (si, ready) c)) /\ ready_in (snd (sched_visit W true (si, ready) c)).
+Proof.
+  intros PI P R Hc. unfold sched_visit.
+  destruct (memn c (done si) || is_fin (pstate si c) || staged (dy si c) || negb (deps_ok W true si c)) eqn:G;
+    [split; assumption|].
+  apply orb_false_iff in G as [G _]. apply orb_false_iff in G as [_ G3].
+  destruct (shutdown_rule W si c); cbn [fst snd].
+  - split; [|exact R]. apply fake_finish_P; [exact (p_inv _ _ _ _ PI)|exact P|exact G3|exact Hc].
+  - split; [exact P|]. intros x Hx. apply in_app_or in Hx as [Hx|[<-|[]]]; [exact (R x Hx)|exact Hc].
+Qed.
+
+Lemma visits_P s : forall l si ready,
+  PassInv W s si ready -> NoDup l -> (forall c, In c ready -> ~ In c l) -> (forall c, In c l -> c < ncomp W) ->
+  pinv si -> ready_in ready ->
+  pinv (fst (fold_left (sched_visit W true) l (si, ready))) /\ ready_in (snd (fold_left (sched_visit W true) l (si, ready))).
+Proof.
+  induction l as [|c l IH]; intros si ready PI Hl Hr Hb P R; cbn [fold_left]; [split; assumption|].
+  inversion Hl as [|? ? Hc Hl']; subst.
+  assert (Hn : ~ In c ready) by (intros H; apply (Hr c H); left; reflexivity).
+  pose proof (visit_ok W s si ready c PI Hn) as V.
+  pose proof (visit_P s si ready c PI P R (Hb c (or_introl eq_refl))) as VP.
+  destruct (sched_visit W true (si, ready) c) as [si' ready'] eqn:E. destruct V as [PI' Sub]. destruct VP as [P' R'].
+  apply IH; auto.
+  - intros x Hx Hi. destruct (Sub x Hx) as [H|H]; [apply (Hr x H); right; exact Hi|subst x; contradiction].
+  - intros x Hx. apply Hb. right. exact Hx.
+Qed.
+
+Lemma sched_pass_P s : Inv s -> pinv s -> pinv (sched_pass W true s).
+Proof.
+  intros I P. unfold sched_pass.
+  pose proof (visits_ok W s (nodes W) s [] (PassInv_init W s I) (seq_NoDup _ _) (fun c H => match H with end)) as PI.
+  pose proof (visits_P s (nodes W) s [] (PassInv_init W s I) (seq_NoDup _ _) (fun c H => match H with end)
+                in_nodes P (fun c H => match H with end)) as [P1 R1].
+  destruct (fold_left (sched_visit W true) (nodes W) (s, [])) as [s1 ready] eqn:E. cbn [fst snd] in *.
+  destruct (stop s1) eqn:St; [exact P1|].
+  destruct (submit_spec s1 ready (p_nodup _ _ _ _ PI)) as [D [C F]].
+  pose proof (p_inv _ _ _ _ PI) as [I1 _]. unfold core in C.
+  assert (Dr : forall c, In c ready -> dy (submit s1 ready) c =
+            {| staged := true; runs := S (runs (dy s1 c)); finish_called := finish_called (dy s1 c);
+               pending := pending (dy s1 c); kill_req := kill_req (dy s1 c); e := Active; ctl := ctl (dy s1 c);
+               restarts := restarts (dy s1 c); resub := resub (dy s1 c); shut := shut (dy s1 c) |} /\
+            ctl (dy s1 c) = None /\ finish_called (dy s1 c) = false).
+  { intros c Hc. rewrite D. apply memn_In in Hc as M. rewrite M. destruct (p_ready _ _ _ _ PI c Hc) as [Us _].
+    destruct (l_unstaged _ (I1 c) Us) as [He [Hctl [_ Hf]]].
+    split; [|split; [exact Hctl|exact Hf]].
+    unfold d_launch, d_stage, cstate. cbn. rewrite Hctl, He. cbn. reflexivity. }
+  assert (Dn : forall c, ~ In c ready -> dy (submit s1 ready) c = dy s1 c).
+  { intros c Hc. rewrite D. destruct (memn c ready) eqn:M; [apply memn_In in M; contradiction|reflexivity]. }
+  constructor.
+  - intros c Hc. unfold pstate in Hc. destruct (in_dec Nat.eq_dec c ready) as [Hr|Hr].
+    + destruct (Dr c Hr) as [Eq [Hn _]]. rewrite Eq in Hc. unfold cstate in Hc. cbn in Hc. rewrite Hn in Hc. discriminate.
+    + rewrite (Dn c Hr) in Hc. rewrite F. inversion C as [[C1 C2 C3 C4 C5 C6]]. rewrite C1. exact (q_fin _ P1 c Hc).
+  - intros c r. destruct (in_dec Nat.eq_dec c ready) as [Hr|Hr].
+    + destruct (Dr c Hr) as [Eq _]. rewrite Eq. cbn. discriminate.
+    + rewrite (Dn c Hr). inversion C as [[C1 C2 C3 C4 C5 C6]]. rewrite C4. exact (q_pm _ P1 c r).
+  - intros c. destruct (in_dec Nat.eq_dec c ready) as [Hr|Hr].
+    + destruct (Dr c Hr) as [Eq [_ Hf]]. rewrite Eq. cbn. intros H. congruence.
+    + rewrite (Dn c Hr). exact (q_pend _ P1 c).
+  - intros c. destruct (in_dec Nat.eq_dec c ready) as [Hr|Hr].
+    + destruct (Dr c Hr) as [Eq _]. rewrite Eq. cbn. discriminate.
+    + rewrite (Dn c Hr). exact (q_run _ P1 c).
+  - inversion C as [[C1 C2 C3 C4 C5 C6]]. rewrite C2, St. discriminate.
+  - intros c. destruct (in_dec Nat.eq_dec c ready) as [Hr|Hr].
+    + intros _. exact (R1 c Hr).
+    + rewrite (Dn c Hr). exact (q_range _ P1 c).
+Qed.
+
+Lemma pinv_same s s' :
+  dy s' = dy s -> done s' = done s -> stop s' = stop s -> pmq s' = pmq s -> finq s' = finq s -> pinv s -> pinv s'.
+Proof.
+  intros H1 H2 H3 H4 H5 P. destruct P. constructor; unfold pstate in *; rewrite ?H1, ?H2, ?H3, ?H4, ?H5; auto.
+Qed.
+
+Lemma In_remove1_other x y l : x <> y -> In x l -> In x (remove1 y l).
+Proof.
+  intros N. induction l as [|z l IH]; cbn; [auto|]. intros [H|H].
+  - subst z. destruct (Nat.eqb y x) eqn:E; [apply Nat.eqb_eq in E; congruence|left; reflexivity].
+  - destruct (Nat.eqb y z); [exact H|right; exact (IH H)].
+Qed.
+
+Lemma exit_P s c s' : Inv s -> pinv s -> exit_comp W outcome s c = Some s' -> pinv s'.
+Proof.
+  intros [I1 _] P H. unfold exit_comp in H.
+  destruct (negb (c <? ncomp W) || negb (exit_enabled (dy s c))) eqn:G; [discriminate|].
+  apply orb_false_iff in G as [G0 G]. apply negb_false_iff in G. apply negb_false_iff in G0. apply Nat.ltb_lt in G0.
+  pose proof (I1 c) as L.
+  assert (Hctl : ctl (dy s c) = None).
+  { destruct (ctl (dy s c)) as [g|] eqn:E; [|reflexivity]. destruct (l_ctl _ L g E) as [_ [r Er]].
+    unfold exit_enabled in G. rewrite Er in G. discriminate. }
+  destruct (finish_called (dy s c)) eqn:Fc.
+  - destruct (q_pend _ P c Fc Hctl) as [_ [f Hp]]. rewrite Hp in H.
+    match type of H with context [set_dy s c ?D] => set (d' := D) in * end.
+    inversion H; subst s'.
+    apply (pinv_upd s c d' (add_finq (set_dy s c d') c) P); cbn.
+    + intros x. reflexivity.
+    + reflexivity.
+    + auto.
+    + intros x _ Hx. left. apply in_or_app. left. exact Hx.
+    + auto.
+    + intros _. left. apply in_or_app. right. left. reflexivity.
+    + unfold d'. cbn. intros r _ Hx. discriminate.
+    + unfold d'. cbn. intros _ Hx. discriminate.
+    + unfold d'. cbn. intros _ Hx. discriminate.
+    + unfold d'. cbn. auto.
+    + intros _. exact G0.
+  - match type of H with context [set_dy s c ?D] => set (d' := D) in * end.
+    inversion H; subst s'.
+    match goal with |- pinv ?S => apply (pinv_upd s c d' S P) end; cbn.
+    + intros x. reflexivity.
+    + reflexivity.
+    + auto.
+    + intros x _ Hx. left. exact Hx.
+    + intros x _ Hx. apply in_or_app. left. exact Hx.
+    + unfold d', cstate. cbn. rewrite Hctl. discriminate.
+    + unfold d'. cbn. intros r _ _. split; [apply in_or_app; right; left; reflexivity|reflexivity].
+    + unfold d'. cbn. intros Hx. discriminate.
+    + unfold d'. cbn. intros _ Hx. discriminate.
+    + unfold d'. cbn. auto.
+    + intros _. exact G0.
+Qed.
+
+Lemma pm_P s c s' : Inv s -> pinv s -> deliver_pm W s c = Some s' -> pinv s'.
+Proof.
+  intros [I1 _] P H. unfold deliver_pm in H. destruct (memn c (pmq s)) eqn:M; [|discriminate]. cbn [negb] in H.
+  pose proof (I1 c) as L. cbn [dy] in H.
+  (* removing c from the post-mortem queue is harmless when c no longer needs a post-mortem *)
+  assert (Drop : (forall r, e (dy s c) = Exited r -> ctl (dy s c) = None -> False) ->
+     pinv {| dy := dy s; done := done s; stop := stop s; cur := cur s; pmq := remove1 c (pmq s); finq := finq s;
+             running := running s; verdict := verdict s |}).
+  { intros Hno. destruct P. constructor; cbn; auto.
+    intros x r H1 H2. destruct (Nat.eq_dec x c) as [->|N]; [exfalso; exact (Hno r H1 H2)|].
+    destruct (q_pm0 x r H1 H2) as [A B]. split; [apply In_remove1_other; assumption|exact B]. }
+  destruct (finish_called (dy s c)) eqn:Fc.
+  { inversion H; subst. apply Drop. intros r H1 H2. destruct (q_pm _ P c r H1 H2) as [_ X]. congruence. }
+  destruct (e (dy s c)) as [| |r] eqn:Ee; try (inversion H; subst; apply Drop; intros r0 H1; discriminate).
+  assert (Hctl : ctl (dy s c) = None) by (apply linv_ctl_none_of_not_fc; auto).
+  assert (Hst : staged (dy s c) = true) by (apply linv_staged_of_nonidle; [exact L|congruence]).
+  destruct (restart_decision W c (dy s c) r) as [d'|] eqn:Rd.
+  - assert (Ed : e d' = Active /\ ctl d' = None /\ staged d' = true /\ finish_called d' = false).
+    { unfold restart_decision, try_restart in Rd.
+      destruct (reason_eqb r SubmissionFailed); [destruct (resub (dy s c) <? 5); [|discriminate]|
+        destruct (mem r (restart_on (cmp W c))); [|discriminate]];
+      destruct (shut (dy s c)); try discriminate; destruct (max_r (cmp W c) <? S (restarts (dy s c))); try discriminate;
+      inversion Rd; cbn; auto. }
+    destruct Ed as [E1 [E2 [E3 E4]]]. inversion H; subst s'.
+    match goal with |- pinv ?S => apply (pinv_upd s c d' S P) end; cbn.
+    + intros x. reflexivity.
+    + reflexivity.
+    + auto.
+    + intros x _ Hx. left. exact Hx.
+    + intros x N Hx. apply In_remove1_other; assumption.
+    + unfold cstate. rewrite E2, E1. discriminate.
+    + intros r0 Hx. congruence.
+    + intros Hx. congruence.
+    + intros _. congruence.
+    + auto.
+    + intros _. exact (q_range _ P c Hst).
+  - inversion H; subst s'.
+    match goal with |- pinv (finish ?S0 c ?F) => set (s0 := S0); set (f := F) end.
+    assert (NR : is_run (cstate (dy s c)) = false) by (unfold cstate; rewrite Hctl, Ee; reflexivity).
+    assert (NF : is_fin (cstate (dy s c)) = false) by (unfold cstate; rewrite Hctl, Ee; reflexivity).
+    assert (Es : finish s0 c f = add_finq (set_dy s0 c (d_finish f (dy s c))) c).
+    { unfold finish. change (dy s0 c) with (dy s c). rewrite NR, NF. reflexivity. }
+    rewrite Es.
+    apply (pinv_upd s c (d_finish f (dy s c)) _ P); cbn.
+    + intros x. reflexivity.
+    + reflexivity.
+    + auto.
+    + intros x _ Hx. left. apply in_or_app. left. exact Hx.
+    + intros x N Hx. apply In_remove1_other; assumption.
+    + intros _. left. apply in_or_app. right. left. reflexivity.
+    + unfold d_finish. rewrite NR. cbn. intros r0 _ Hx. discriminate.
+    + unfold d_finish. rewrite NR. cbn. intros _ Hx. discriminate.
+    + destruct (d_finish_frame f (dy s c)) as [_ [A [_ [B _]]]]. rewrite A, B. exact (q_run _ P c).
+    + destruct (d_finish_frame f (dy s c)) as [A _]. rewrite A. auto.
+    + intros _. exact (q_range _ P c Hst).
+Qed.
+
+(* ---- finishedCheck: recording c as done commutes with the component-level actions *)
+Definition add_done (s : state) (c : nat) : state :=
+  {| dy := dy s; done := done s ++ [c]; stop := stop s; cur := cur s; pmq := pmq s; finq := finq s;
+     running := running s; verdict := verdict s |}.
+
+Lemma finish_add_done s x f c : finish (add_done s c) x f = add_done (finish s x f) c.
+Proof. unfold finish. cbn. destruct (negb _ && negb _); reflexivity. Qed.
+
+Lemma fake_finish_add_done s x f c : fake_finish (add_done s c) x f = add_done (fake_finish s x f) c.
+Proof. unfold fake_finish, finish. cbn. destruct (negb _ && negb _); reflexivity. Qed.
+
+Lemma stop_components_add_done c : forall cs s, stop_components (add_done s c) cs = add_done (stop_components s cs) c.
+Proof.
+  induction cs as [|x cs IH]; intros s; cbn [stop_components fold_left]; [reflexivity|].
+  fold (stop_components (if alive (dy (add_done s c) x) && negb (finish_called (dy (add_done s c) x))
+                         then finish (add_done s c) x Shutdown else add_done s c) cs).
+  fold (stop_components (if alive (dy s x) && negb (finish_called (dy s x)) then finish s x Shutdown else s) cs).
+  cbn [add_done dy]. destruct (alive (dy s x) && negb (finish_called (dy s x))); [rewrite finish_add_done|]; apply IH.
+Qed.
+
+Lemma kill_fold_add_done c : forall l s,
+  fold_left (fun s c => if negb (finish_called (dy s c)) && alive (dy s c)
+                        then (if staged (dy s c) then finish s c Shutdown else fake_finish s c Shutdown)
+                        else s) l (add_done s c) =
+  add_done (fold_left (fun s c => if negb (finish_called (dy s c)) && alive (dy s c)
+                        then (if staged (dy s c) then finish s c Shutdown else fake_finish s c Shutdown)
+                        else s) l s) c.
+Proof.
+  induction l as [|x l IH]; intros s; cbn [fold_left]; [reflexivity|]. cbn [add_done dy].
+  destruct (negb (finish_called (dy s x)) && alive (dy s x)); [|apply IH].
+  destruct (staged (dy s x)); [rewrite finish_add_done|rewrite fake_finish_add_done]; apply IH.
+Qed.
+
+Lemma fake_fold_add_done c : forall cs s,
+  fold_left (fun s x => if negb (staged (dy s x)) && negb (finish_called (dy s x))
+                        then fake_finish s x Shutdown else s) cs (add_done s c) =
+  add_done (fold_left (fun s x => if negb (staged (dy s x)) && negb (finish_called (dy s x))
+                        then fake_finish s x Shutdown else s) cs s) c.
+Proof.
+  induction cs as [|x cs IH]; intros s; cbn [fold_left]; [reflexivity|]. cbn [add_done dy].
+  destruct (negb (staged (dy s x)) && negb (finish_called (dy s x))); [rewrite fake_finish_add_done|]; apply IH.
+Qed.
+
+Lemma kill_all_add_done s c : kill_all W (add_done s c) = add_done (kill_all W s) c.
+Proof. unfold kill_all. rewrite <- kill_fold_add_done. reflexivity. Qed.
+
+Lemma kill_all_P s : Inv s -> pinv s -> pinv (kill_all W s).
+Proof.
+  intros I P. unfold kill_all.
+  set (s0 := {| dy := dy s; done := done s; stop := true; cur := cur s; pmq := pmq s; finq := finq s;
+                running := running s; verdict := verdict s |}).
+  assert (I0 : Inv s0) by exact I.
+  (* the invariant without the claim about stop, carried through the fold, then re-established *)
+  assert (P0' : pinv (set_stop s0 false)).
+  { destruct P. constructor; cbn; auto. discriminate. }
+  pose proof (kill_fold_P (nodes W) (set_stop s0 false) I0 P0' in_nodes) as PF.
+  pose proof (kill_fold_staged (nodes W) s0 I0) as St.
+  (* the fold does not read or write stop *)
+  assert (Comm : forall l t b,
+     fold_left (fun s c => if negb (finish_called (dy s c)) && alive (dy s c)
+                        then (if staged (dy s c) then finish s c Shutdown else fake_finish s c Shutdown)
+                        else s) l (set_stop t b) =
+     set_stop (fold_left (fun s c => if negb (finish_called (dy s c)) && alive (dy s c)
+                        then (if staged (dy s c) then finish s c Shutdown else fake_finish s c Shutdown)
+                        else s) l t) b).
+  { induction l as [|x l IH]; intros t b; cbn [fold_left]; [reflexivity|]. cbn [set_stop dy].
+    assert (F1 : forall y f, finish (set_stop t b) y f = set_stop (finish t y f) b)
+      by (intros y f; unfold finish; cbn; destruct (negb _ && negb _); reflexivity).
+    assert (F2 : forall y f, fake_finish (set_stop t b) y f = set_stop (fake_finish t y f) b)
+      by (intros y f; unfold fake_finish, finish; cbn; destruct (negb _ && negb _); reflexivity).
+    destruct (negb (finish_called (dy t x)) && alive (dy t x)); [|apply IH].
+    destruct (staged (dy t x)); [rewrite F1|rewrite F2]; apply IH. }
+  rewrite Comm in PF. cbn in St.
+  set (sf := fold_left _ (nodes W) s0) in *.
+  destruct PF. constructor; cbn in *; auto.
+  intros _ c Hc. apply St. unfold nodes. apply in_seq. lia.
+Qed.
+
+Lemma fin_P s c s' : Inv s -> pinv s -> deliver_fin W s c = Some s' -> pinv s'.
+Proof.
+  intros I P H. unfold deliver_fin in H. destruct (memn c (finq s)) eqn:M; [|discriminate]. cbn [negb] in H.
+  apply memn_In in M.
+  match type of H with context [is_failed (pstate ?S0 c)] => set (s0 := S0) in * end.
+  set (t := add_done s0 c).
+  assert (Fc : is_fin (pstate s c) = true) by (destruct I as [_ [_ I3]]; exact (I3 c M)).
+  assert (It : Inv t).
+  { destruct I as [I1 [I2 I3]]. split; [exact I1|split].
+    - intros x Hx. cbn in Hx. apply in_app_or in Hx as [Hx|[<-|[]]]; [exact (I2 x Hx)|exact Fc].
+    - intros x Hx. cbn in Hx. exact (I3 x (In_remove1 _ _ _ Hx)). }
+  assert (Pt : pinv t).
+  { destruct P. constructor; cbn; auto.
+    intros x Hx. destruct (Nat.eq_dec x c) as [->|N]; [right; apply in_or_app; right; left; reflexivity|].
+    destruct (q_fin0 x Hx) as [A|A]; [left; apply In_remove1_other; assumption|right; apply in_or_app; left; exact A]. }
+  inversion H; subst s'; clear H.
+  match goal with |- pinv {| dy := dy ?S1; done := _; stop := _; cur := _; pmq := _; finq := _; running := _; verdict := _ |} =>
+    change (pinv (add_done S1 c)) end.
+  destruct (is_failed (pstate s0 c)).
+  - match goal with |- context [if ?b then kill_all W s0 else _] => destruct b end.
+    + rewrite <- kill_all_add_done. exact (kill_all_P t It Pt).
+    + rewrite <- stop_components_add_done, <- fake_fold_add_done. fold t.
+      destruct (fake_fold_ok (stage_nodes W (stage (cmp W c))) t It) as [A [_ [_ [_ St]]]].
+      apply stop_components_P; [exact A| |exact St].
+      apply fake_fold_P; [exact It|exact Pt|]. intros x Hx. exact (in_stage_nodes x _ Hx).
+  - exact Pt.
+Qed.
+
+Lemma tick_P s s' : Inv s -> pinv s -> tick W true s = Some s' -> pinv s'.
+Proof.
+  intros I P H. unfold tick in H. destruct (cur s) as [i|]; [|discriminate]. destruct (running s); [|discriminate].
+  inversion H; subst s'. destruct (stage_done W s i) eqn:Sd; [|exact (sched_pass_P s I P)].
+  unfold end_stage.
+  assert (St : forall c, In c (stage_nodes W i) -> staged (dy s c) = true).
+  { intros c Hc. unfold stage_done in Sd. rewrite forallb_forall in Sd. specialize (Sd c Hc). apply memn_In in Sd.
+    destruct I as [I1 [I2 _]]. specialize (I2 c Sd). unfold pstate in I2. apply is_fin_ctl in I2 as [f Hf].
+    destruct (l_ctl _ (I1 c) f Hf) as [_ [r Er]]. apply linv_staged_of_nonidle; [apply I1|congruence]. }
+  apply (pinv_same (stop_components s (stage_nodes W i))); auto.
+  apply stop_components_P; assumption.
+Qed.
+
+Lemma start_P s s' : Inv s -> pinv s -> start_stage W true s = Some s' -> pinv s'.
+Proof.
+  intros I P H. unfold start_stage in H. destruct (running s); [discriminate|].
+  match type of H with (if ?b then _ else _) = _ => destruct b; [|discriminate] end.
+  match type of H with Some (sched_pass W true ?S0) = _ => set (s0 := S0) in * end.
+  assert (I0 : Inv s0) by (apply (Inv_sub s); auto).
+  assert (P0 : pinv s0). { destruct P. constructor; cbn; auto. discriminate. }
+  inversion H; subst s'. exact (sched_pass_P s0 I0 P0).
+Qed.
+
+Lemma step_P s ev s' : Inv s -> pinv s -> step W true outcome s ev = Some s' -> pinv s'.
+Proof.
+  intros I P H. destruct ev as [| |c|c|c]; cbn [step] in H.
+  - exact (start_P s s' I P H).
+  - exact (tick_P s s' I P H).
+  - exact (exit_P s c s' I P H).
+  - exact (pm_P s c s' I P H).
+  - exact (fin_P s c s' I P H).
+Qed.
+
+Lemma run_P : forall evs s s', Inv s -> pinv s -> run W true outcome s evs = Some s' -> pinv s'.
+Proof.
+  induction evs as [|ev evs IH]; intros s s' I P H; cbn [run] in H.
+  - inversion H; subst. exact P.
+  - destruct (step W true outcome s ev) as [s1|] eqn:E; [|discriminate].
+    destruct (step_ok W outcome s ev s1 I E) as [I1 _].
+    exact (IH s1 s' I1 (step_P s ev s1 I P E) H).
+Qed.
+
+(* ------------------------------------------------------------------ the progress theorem *)
+Lemma NoDup_app_l {A} (l r : list A) : NoDup (l ++ r) -> NoDup l.
+Proof.
+  induction l as [|a l IH]; cbn; intros H; [constructor|]. inversion H as [|? ? Ha H']; subst.
+  constructor; [intros Hi; apply Ha; apply in_or_app; left; exact Hi|exact (IH H')].
+Qed.
+Lemma NoDup_app_r {A} (l r : list A) : NoDup (l ++ r) -> NoDup r.
+Proof. induction l as [|a l IH]; cbn; intros H; [exact H|]. inversion H; subst. auto. Qed.
+
+Lemma visit_frame si ready c x : x <> c -> dy (fst (sched_visit W true (si, ready) c)) x = dy si x.
+Proof.
+  intros N. unfold sched_visit. destruct (_ || _ || _ || _); [reflexivity|].
+  destruct (shutdown_rule W si c); cbn [fst]; [|reflexivity].
+  unfold fake_finish, finish. cbn. destruct (negb _ && negb _); cbn; rewrite !upd_other by exact N; reflexivity.
+Qed.
+
+Lemma visits_frame x : forall l si ready, ~ In x l -> dy (fst (fold_left (sched_visit W true) l (si, ready))) x = dy si x.
+Proof.
+  induction l as [|c l IH]; intros si ready Hn; cbn [fold_left]; [reflexivity|].
+  destruct (sched_visit W true (si, ready) c) as [si' ready'] eqn:E.
+  rewrite IH by (intros H; apply Hn; right; exact H).
+  replace si' with (fst (sched_visit W true (si, ready) c)) by (rewrite E; reflexivity).
+  apply visit_frame. intros ->. apply Hn. left. reflexivity.
+Qed.
+
+Lemma visit_ready_mono si ready c x : In x ready -> In x (snd (sched_visit W true (si, ready) c)).
+Proof.
+  intros H. unfold sched_visit. destruct (_ || _ || _ || _); [exact H|].
+  destruct (shutdown_rule W si c); cbn [snd]; [exact H|apply in_or_app; left; exact H].
+Qed.
+
+Lemma visits_ready_mono x : forall l si ready, In x ready -> In x (snd (fold_left (sched_visit W true) l (si, ready))).
+Proof.
+  induction l as [|c l IH]; intros si ready H; cbn [fold_left]; [exact H|].
+  destruct (sched_visit W true (si, ready) c) as [si' ready'] eqn:E. apply IH.
+  replace ready' with (snd (sched_visit W true (si, ready) c)) by (rewrite E; reflexivity).
+  apply visit_ready_mono. exact H.
+Qed.
+
+Lemma pass_stages s c0 :
+  Inv s -> stop s = false -> c0 < ncomp W -> ~ In c0 (done s) -> staged (dy s c0) = false ->
+  (forall p, In p (preds (cmp W c0)) -> In p (done s)) ->
+  staged (dy (sched_pass W true s) c0) = true.
+Proof.
+  intros I Hstop Hc Hnd Hus Hpre. pose proof I as [I1 _].
+  destruct (l_unstaged _ (I1 c0) Hus) as [He [Hctl _]].
+  assert (Hin : In c0 (nodes W)) by (unfold nodes; apply in_seq; lia).
+  destruct (in_split _ _ Hin) as [l1 [l2 Hsplit]].
+  pose proof (seq_NoDup (ncomp W) 0) as ND. fold (nodes W) in ND. rewrite Hsplit in ND.
+  assert (N1 : ~ In c0 l1 /\ ~ In c0 l2).
+  { apply NoDup_remove_2 in ND. split; intros H; apply ND; apply in_or_app; [left|right]; exact H. }
+  destruct N1 as [N1 N2].
+  assert (ND1 : NoDup l1 /\ NoDup (c0 :: l2)).
+  { split; [exact (NoDup_app_l _ _ ND)|exact (NoDup_app_r _ _ ND)]. }
+  destruct ND1 as [ND1 ND2]. inversion ND2 as [|? ? _ ND3]; subst.
+  unfold sched_pass. rewrite Hsplit, fold_left_app. cbn [fold_left].
+  pose proof (visits_ok W s l1 s [] (PassInv_init W s I) ND1 (fun c H => match H with end)) as P1.
+  pose proof (visits_frame c0 l1 s [] N1) as F1.
+  destruct (fold_left (sched_visit W true) l1 (s, [])) as [si ri] eqn:E1. cbn [fst snd] in *.
+  (* the visit of c0 *)
+  assert (Hn : ~ In c0 ri).
+  { intros H. destruct (p_ready _ _ _ _ P1 c0 H) as [_ [_ _]].
+    (* ready components were visited, c0 was not: use the subset property of the fold *)
+    revert H. clear -E1 N1.
+    assert (G : forall l si0 r0 sf rf, fold_left (sched_visit W true) l (si0, r0) = (sf, rf) ->
+              forall x, In x rf -> In x r0 \/ In x l).
+    { induction l as [|c l IH]; intros si0 r0 sf rf Hf x Hx; cbn [fold_left] in Hf.
+      - inversion Hf; subst. left. exact Hx.
+      - destruct (sched_visit W true (si0, r0) c) as [s' r'] eqn:Ev.
+        destruct (IH _ _ _ _ Hf x Hx) as [H|H]; [|right; right; exact H].
+        unfold sched_visit in Ev. destruct (_ || _ || _ || _); [inversion Ev; subst; left; exact H|].
+        destruct (shutdown_rule W si0 c); inversion Ev; subst; [left; exact H|].
+        apply in_app_or in H as [H|[H|[]]]; [left; exact H|right; left; exact H]. }
+    intros H. destruct (G l1 s [] si ri E1 c0 H) as [[]|H']. contradiction. }
+  pose proof (visit_ok W s si ri c0 P1 Hn) as V.
+  assert (Vis : staged (dy (fst (sched_visit W true (si, ri) c0)) c0) = true \/
+                In c0 (snd (sched_visit W true (si, ri) c0))).
+  { unfold sched_visit.
+    assert (G1 : memn c0 (done si) = false).
+    { destruct (memn c0 (done si)) eqn:M; [|reflexivity]. apply memn_In in M.
+      pose proof (p_core _ _ _ _ P1) as C. unfold core in C. assert (C1 : done si = done s) by congruence. rewrite C1 in M. contradiction. }
+    assert (G2 : is_fin (pstate si c0) = false).
+    { rewrite (p_pstate _ _ _ _ P1). unfold pstate, cstate. rewrite Hctl, He. reflexivity. }
+    assert (G3 : staged (dy si c0) = false) by (rewrite F1; exact Hus).
+    assert (G4 : deps_ok W true si c0 = true).
+    { unfold deps_ok. apply forallb_forall. intros p Hp. apply orb_true_iff. left. apply memn_In.
+      pose proof (p_core _ _ _ _ P1) as C. unfold core in C. assert (C1 : done si = done s) by congruence. rewrite C1. exact (Hpre p Hp). }
+    rewrite G1, G2, G3, G4. cbn [orb negb].
+    destruct (shutdown_rule W si c0); cbn [fst snd].
+    - left. unfold fake_finish. rewrite finish_staged_same. cbn. rewrite upd_same. reflexivity.
+    - right. apply in_or_app. right. left. reflexivity. }
+  destruct (sched_visit W true (si, ri) c0) as [si' ri'] eqn:E0. cbn [fst snd] in Vis. destruct V as [P' Sub].
+  assert (Hr' : forall c, In c ri' -> ~ In c l2).
+  { intros x Hx Hi. destruct (Sub x Hx) as [H|H].
+    - (* x in ri: visited in l1, and l1, l2 are disjoint *)
+      assert (G : forall l si0 r0 sf rf, fold_left (sched_visit W true) l (si0, r0) = (sf, rf) ->
+              forall x, In x rf -> In x r0 \/ In x l).
+      { induction l as [|c l IH]; intros si0 r0 sf rf Hf y Hy; cbn [fold_left] in Hf.
+        - inversion Hf; subst. left. exact Hy.
+        - destruct (sched_visit W true (si0, r0) c) as [s' r'] eqn:Ev.
+          destruct (IH _ _ _ _ Hf y Hy) as [H1|H1]; [|right; right; exact H1].
+          unfold sched_visit in Ev. destruct (_ || _ || _ || _); [inversion Ev; subst; left; exact H1|].
+          destruct (shutdown_rule W si0 c); inversion Ev; subst; [left; exact H1|].
+          apply in_app_or in H1 as [H1|[H1|[]]]; [left; exact H1|right; left; exact H1]. }
+      destruct (G l1 s [] si ri E1 x H) as [[]|H1].
+      apply NoDup_remove_1 in ND.
+      (* NoDup (l1 ++ l2) forbids a common element *)
+      clear -ND H1 Hi. induction l1 as [|a l1 IH]; [destruct H1|]. cbn in ND. inversion ND as [|? ? Ha ND']; subst.
+      destruct H1 as [->|H1]; [apply Ha; apply in_or_app; right; exact Hi|exact (IH ND' H1)].
+    - subst x. contradiction. }
+  pose proof (visits_ok W s l2 si' ri' P' ND3 Hr') as P2.
+  pose proof (visits_frame c0 l2 si' ri' N2) as F2.
+  pose proof (visits_ready_mono c0 l2 si' ri') as M2.
+  destruct (fold_left (sched_visit W true) l2 (si', ri')) as [sf rf] eqn:E2. cbn [fst snd] in *.
+  assert (St : stop sf = false).
+  { pose proof (p_core _ _ _ _ P2) as C. unfold core in C. congruence. }
+  rewrite St. destruct (submit_spec sf rf (p_nodup _ _ _ _ P2)) as [D _]. rewrite D.
+  destruct (memn c0 rf) eqn:M.
+  - unfold d_launch, d_stage. cbn. destruct (is_shutdown _); reflexivity.
+  - destruct Vis as [Vis|Vis]; [rewrite F2; exact Vis|].
+    apply M2 in Vis. apply memn_In in Vis. congruence.
+Qed.
+
+Lemma least_not_done s : forall c, ~ In c (done s) ->
+  exists c0, c0 <= c /\ ~ In c0 (done s) /\ forall p, p < c0 -> In p (done s).
+Proof.
+  induction c as [c IH] using lt_wf_ind. intros Hc.
+  destruct (forallb (fun p => memn p (done s)) (seq 0 c)) eqn:A.
+  - exists c. split; [lia|split; [exact Hc|]]. intros p Hp. rewrite forallb_forall in A.
+    apply memn_In. apply A. apply in_seq. lia.
+  - assert (Ex : exists p, In p (seq 0 c) /\ memn p (done s) = false).
+    { clear -A. induction (seq 0 c) as [|a l IHl]; cbn in A; [discriminate|].
+      destruct (memn a (done s)) eqn:M; [destruct (IHl A) as [p [H1 H2]]; exists p; split; [right|]; assumption|].
+      exists a. split; [left; reflexivity|exact M]. }
+    destruct Ex as [p [Hp Mp]]. apply in_seq in Hp.
+    assert (Np : ~ In p (done s)) by (intros H; apply memn_In in H; congruence).
+    destruct (IH p ltac:(lia) Np) as [c0 [H1 [H2 H3]]]. exists c0. split; [lia|split; assumption].
+Qed.
+
+Theorem progress s i :
+  wf W -> Inv s -> pinv s -> cur s = Some i -> running s = true -> stage_done W s i = false ->
+  (exists ev, ev <> Tick /\ step W true outcome s ev <> None) \/
+  (exists c, staged (dy s c) = false /\ staged (dy (sched_pass W true s) c) = true).
+Proof.
+  intros WF I P Hcur Hrun Hnd. pose proof I as [I1 _].
+  assert (Ex : exists c, In c (stage_nodes W i) /\ ~ In c (done s)).
+  { unfold stage_done in Hnd. clear -Hnd. induction (stage_nodes W i) as [|a l IHl]; cbn in Hnd; [discriminate|].
+    destruct (memn a (done s)) eqn:M.
+    - destruct (IHl Hnd) as [c [H1 H2]]. exists c. split; [right|]; assumption.
+    - exists a. split; [left; reflexivity|]. intros H. apply memn_In in H. congruence. }
+  destruct Ex as [c [Hc Hcd]]. pose proof (in_stage_nodes c i Hc) as Hcn.
+  destruct (least_not_done s c Hcd) as [c0 [Hle [Hnd0 Hlt]]].
+  assert (Hc0 : c0 < ncomp W) by lia.
+  destruct (is_fin (pstate s c0)) eqn:Hfin.
+  { left. exists (Fin c0). split; [discriminate|]. cbn [step]. unfold deliver_fin.
+    destruct (q_fin _ P c0 Hfin) as [H|H]; [|contradiction]. apply memn_In in H. rewrite H. discriminate. }
+  assert (Hctl : ctl (dy s c0) = None).
+  { destruct (ctl (dy s c0)) as [f|] eqn:E; [|reflexivity]. unfold pstate, cstate in Hfin. rewrite E in Hfin. discriminate. }
+  destruct (e (dy s c0)) as [| |r] eqn:Ee.
+  - destruct (staged (dy s c0)) eqn:St.
+    + destruct (finish_called (dy s c0)) eqn:Fc.
+      * left. exists (Exit c0). split; [discriminate|]. cbn [step]. unfold exit_comp.
+        destruct (q_pend _ P c0 Fc Hctl) as [K _].
+        apply Nat.ltb_lt in Hc0. rewrite Hc0. unfold exit_enabled. rewrite Ee, K. cbn. rewrite Fc.
+        destruct (pending (dy s c0)); discriminate.
+      * exfalso. pose proof (l_launched _ (I1 c0) St Fc) as Hr. exact (q_run _ P c0 Hr Ee).
+    + right. exists c0. split; [exact St|].
+      assert (Hstop : stop s = false).
+      { destruct (stop s) eqn:S; [|reflexivity]. pose proof (q_stop _ P S c0 Hc0). congruence. }
+      apply pass_stages; [exact I|exact Hstop|exact Hc0|exact Hnd0|exact St|]. intros p Hp. apply Hlt. exact (WF c0 p Hp).
+  - left. exists (Exit c0). split; [discriminate|]. cbn [step]. unfold exit_comp.
+    apply Nat.ltb_lt in Hc0. rewrite Hc0. unfold exit_enabled. rewrite Ee. cbn.
+    destruct (finish_called (dy s c0)); [destruct (pending (dy s c0))|]; discriminate.
+  - left. exists (PM c0). split; [discriminate|]. cbn [step]. unfold deliver_pm.
+    destruct (q_pm _ P c0 r Ee Hctl) as [H Fc]. apply memn_In in H. rewrite H. cbn [negb dy]. rewrite Fc, Ee.
+    destruct (restart_decision W c0 (dy s c0) r); discriminate.
+Qed.
 End Progress.
